@@ -129,8 +129,43 @@ def main(tier, seed):
                     return [r] if b == _t else [pd.raw_of(x) for x in _conv[b][1]]
                 cases.append(dict(label=[name, 'block%d' % bi, 'segment=recv-size%+d' % d, False], acceptor=acceptor,
                                   max_len=m, ops=pd.to_script(conv, whole, False), ref=rname))
+    big_cases, big_refs = [], {}
+    # PDUs longer than one read of the provider (a peer may send them once the provider has announced more than 65536,
+    # or no limit): a C-STORE of 70 000 bytes in one P-DATA-TF PDU (maximum 131072) with a C-ECHO request right behind it; the long PDU takes several reads, and its
+    # last bytes share a segment with the PDU behind it
+    for big_max, recv_label in ((131072, 'announced_131072'), (0, 'no_limit')) if tier != 'quick' else ((131072, 'announced_131072'),):
+        conv = pd.conv_acceptor_store(131072, 70000)
+        conv[2] = ('peer', conv[2][1] + pd.fragments(pd.mk_message('echo_rq', 2), 1, 131072))
+        conv.insert(4, ('usermsg', pd.fragments(pd.mk_message('echo_rsp', 2), 1, 131072)))
+        conv[0] = ('peer', [pd.mk_rq(131072)])
+        conv[1] = ('user', pd.mk_ac(big_max))
+        name = 'a_store_long_pdus_' + recv_label
+        rname = 'ref_' + name
+        big_refs[rname] = (True, pd.to_script(conv, None, False), big_max)
+        big_cases.append(dict(label=[name, 'one-pdu-per-segment', False], acceptor=True, max_len=big_max, ops=big_refs[rname][1], ref=rname))
+        bi = 2
+        lens = [len(pd.raw_of(x)) for x in conv[bi][1]]
+        end1 = lens[0] + lens[1]                       # end of the first (long) data PDU
+        for label, cuts in [('all-at-once', []), ('tail-of-long-pdu-with-next', [end1 - 1000]),
+                            ('long-pdu-in-three-and-tail-with-next', [lens[0] + 30000, lens[0] + 60000, end1 - 1]),
+                            ('cut-in-next-header', [end1 + 3])][:4 if tier != 'quick' else 2]:
+            def cutter3(b, raw, _c=cuts, _conv=conv):
+                if b == 2:
+                    return apply_cuts(raw, _c)
+                return [pd.raw_of(x) for x in _conv[b][1]]
+            big_cases.append(dict(label=[name, 'block2', label, False], acceptor=True, max_len=big_max,
+                              ops=pd.to_script(conv, cutter3, False), ref=rname))
     runner, results, failing, broken, _refs = pd.run_cases(
         'C03', dec, cases, [('corr', 'prov_corr'), ('spec', 'c03_spec')], size=30, refs=refs)
+    # (their own files: a reference delivery is part of every file that uses it)
+    _rn, results_b, failing_b, broken_b, _refs_b = pd.run_cases(
+        'C03', dec, big_cases, [('corr', 'prov_corr'), ('spec', 'c03_spec')], size=1, refs=big_refs, runner=runner, prefix='Long')
+    n0 = len(cases)
+    cases = cases + big_cases
+    results = results + results_b
+    broken = broken + broken_b
+    for k in failing:
+        failing[k] = list(failing[k]) + [n0 + i for i in failing_b[k]]
     bpairs = boundary_pairs()
     _rn, bres, bfail, bbroken = pd.run_pairs_w('C03', dec, bpairs, [('corr', 'prov_corr_w2'), ('spec', 'c03_spec_w')],
                                                runner=runner, prefix='Boundary')
